@@ -40,8 +40,8 @@ CLAIMED = {
     "C06": (SIM + "seeded schedules of 2-4 concurrent writers at store-call granularity + commit-sequence invariant on balances vs declared allowance",
             "Seeded exploration of interleavings (and store faults) of concurrent spenders through the real HTTP API; at every simulated commit the balance of each bounded source is compared with its allowance. Sampling, not proof.",
             TRUSTED + "The row locking itself (SELECT ... FOR UPDATE in balances.go) is part of the contract, not checked.", "9/C06"),
-    "C07": (SIM + "seeded store faults (statement error, connection loss, deadlock, too many clients, clean commit failure, client disconnect) at every store-call position of every write kind, naturally failing inputs and dry runs; oracle = committed logs vs acknowledged writes + state equals replay of logs + no event + no lock left",
-            "Seeded exploration of fault positions and failing inputs; a failed or dry-run write must leave no log, no state the logs do not explain, no event, no lock or open transaction.",
+    "C07": (SIM + "FAULT ENUMERATION: for 86 scenarios (14 write kinds x {single, first write of a ledger, non-atomic bulk element, atomic bulk element} x {contract model, real SQL}) every yield point of the request (store call / SQL statement, BeginTX, Commit, LockLedger) x every fault kind it admits (statement error, connection loss, deadlock, too many clients, clean commit failure, client disconnect, crash) is injected once - a complete enumeration of single-fault positions (~4700 runs); then seeded store faults (statement error, connection loss, deadlock, too many clients, clean commit failure, client disconnect) at every store-call position of every write kind, naturally failing inputs and dry runs; oracle = committed logs vs acknowledged writes + state equals replay of logs + no event + no lock left",
+            "Complete enumeration of the single-fault positions of a fixed scenario list, plus seeded exploration of multi-fault runs, concurrent writers and failing inputs; a failed or dry-run write must leave no log, no state the logs do not explain, no event, no lock or open transaction.",
             TRUSTED + "Effects of data SQL the stub does not execute are out of reach.", "9/C07"),
     "C08": (SIM + "seeded concurrent histories of all write kinds with faults and crashes; oracle = one log per acknowledged write, no unexplained log, independent replay of the stored log payloads equals the stored state, log ids follow commit order where the store serialises insertion",
             "Seeded exploration; the journal is compared with the acknowledged writes and replayed by an independent replayer that knows only the payload shapes.",
@@ -64,8 +64,8 @@ CLAIMED = {
     "C29": (SIM + "seeded configurations {strict, audit} x {0..3 schema versions, one inserted concurrently} x charts of a small family (fixed/variable segments, patterns, .self, default metadata, fixed branch beside a variable segment) x templates; writes naming existing/missing/no version; oracle = independent chart matcher and enforcement rules written from the documented meaning, answers justified by the schema set visible in the request's window, default metadata recomputed from the committed logs",
             "Seeded exploration of schema enforcement through the real API with an independent reference for the chart semantics.",
             TRUSTED + "Schema rows and the default-metadata merge of the account upsert are part of the contract (S6).", "9/C29"),
-    "C31": (SIM + "recording listener (real bus listener in half of the runs) with global event sequence numbers; seeded faults incl. commit failures on single writes, first writes of a ledger and concurrent writers; oracle = exactly one event per committed log, after its commit, none otherwise",
-            "Seeded exploration; every listener callback is ordered against the simulated commit that made its write durable.",
+    "C31": (SIM + "FAULT ENUMERATION of the statement's matrix: every write kind x {single, first write on an initializing ledger, non-atomic bulk, atomic bulk} x {contract model, real SQL} x every yield point x every fault kind it admits incl. clean commit failure at the inner release and at the outer commit (~4700 runs, complete for that scenario list), success and dry-run included; then seeded exploration; recording listener (real bus listener in half of the runs) with global event sequence numbers; seeded faults incl. commit failures on single writes, first writes of a ledger and concurrent writers; oracle = exactly one event per committed log, after its commit, none otherwise",
+            "Complete enumeration of single-fault positions of a fixed scenario list plus seeded exploration; every listener callback is ordered against the simulated commit that made its write durable.",
             TRUSTED, "9/C31"),
     "C32": (SIM + "seeded bulks (all element kinds, planted failing elements) x atomic/continueOnFailure/parallel x json/json-stream through the real handlers and Bulker, pool workers scheduled by the simulator, with faults; oracle = one result per element, result i describes element i and equals the standalone answer, atomic all-or-nothing, ordered short-circuit",
             "Seeded exploration of bulk requests through the real handlers; effects are read from the committed logs.",
@@ -105,7 +105,7 @@ def main():
                 "evidence_file": "/verif/evidence/%s.json" % pid,
                 "replay_cmd_template": "./check %s --replay {path}" % pid,
                 "engine": "ledgersim",
-                "level_claimed": {"category": "exploration", "text": text, "design_ref": "DESIGN.md section " + ref},
+                "level_claimed": {"category": "fault_enumeration" if pid in ("C07", "C31") else "exploration", "text": text, "design_ref": "DESIGN.md section " + ref},
                 "level_note": note,
                 "technique": tech,
             })
